@@ -66,6 +66,8 @@ def node_src(n, ind="") -> list[str]:
             L += [f"{ind}@{name}.setter", f"{ind}def {name}(self, value: int) -> None:", f"{ind}    ...", ""]
     elif k == "enum":
         base = next((f[5:] for f in flags if f.startswith("base-")), "Enum")
+        if "redefined" in flags:      # an earlier definition of the enum with another member: the later one wins
+            L += [f"{ind}class {name}({base}):", f"{ind}    ZZ = 9", ""]
         L.append(f"{ind}class {name}({base}):")
         val = (lambda j: f'"v{j}"') if base == "StrEnum" else (lambda j: str(2 ** j))
         L += [f"{ind}    {c['name']} = {val(j)}" for j, c in enumerate(n["ch"])] or [f"{ind}    pass"]
